@@ -662,22 +662,44 @@ def _run(ctx, root):
 
     # ---------------------------------------------------------------- 4. If-Modified-Since around the mtime
     ORA_COND = 'conditional: not modified -> 304 without body, modified -> the file'
-    for mt in (T0, T0 + 0.5, T0 + 0.999):
+    # modification times: the epoch itself (a legitimate value that is falsy), its neighbours, the usual one with and without a
+    # fractional part, and one beyond 2^31; methods: GET and HEAD (a HEAD revalidation is answered like the GET, without body)
+    for mt, method in [(m_, 'GET') for m_ in (T0, T0 + 0.5, T0 + 0.999, 0, 0.5, 1, 2 ** 31 + 0.25)] + [(T0 + 0.5, 'HEAD'), (0, 'HEAD')]:
         fpath = os.path.join(served, 'a.txt')
         os.utime(fpath, (mt, mt))
         fs_dirty()
         lm = int(mt)
+        ctx.count(f'conditional_{method}_mtime_' + ('epoch' if mt == 0 else 'near_epoch' if mt < 10 else 'beyond_2^31' if mt > 2 ** 31 else 'ordinary'))
         for stack in ('wsgi', 'asgi'):
             for delta in (-86400, -2, -1, 0, 1, 2, 86400):
+                if lm + delta < 0:
+                    continue
                 for rng in (None, 'bytes=2-4', 'bytes=50-', 'bytes=-3', 'items=0-1', 'bytes=4-2', 'junk'):
                     for route in ('/s/', '/d/'):
                         ims = email.utils.formatdate(lm + delta, usegmt=True)
                         headers = {'If-Modified-Since': ims}
                         if rng: headers['Range'] = rng
-                        st, hd, hl, body, opened, seenp, err = request(stack, (route + 'a.txt').encode(), headers=headers)
-                        case = {'stack': stack, 'mtime': mt, 'if_modified_since': ims, 'range': rng, 'route': route}
+                        st, hd, hl, body, opened, seenp, err = request(stack, (route + 'a.txt').encode(), headers=headers, method=method)
+                        case = {'stack': stack, 'method': method, 'mtime': mt, 'if_modified_since': ims, 'range': rng, 'route': route}
                         data = FILES['a.txt']
                         what = None
+                        if method == 'HEAD':
+                            # judged on status and headers only: what the GET would answer, and never a body
+                            if err: what = f'raised {err}'
+                            elif body: what = f'HEAD answered with a body {body!r}'
+                            elif delta >= 0:
+                                if st != 304 and not (rng in ('bytes=4-2', 'junk') and st == 400): what = f'HEAD: not modified since {ims} but status {st}'
+                            elif rng is None or rng == 'items=0-1':
+                                if st != 200: what = f'HEAD: modified, expected 200, got {st}'
+                            elif rng in ('bytes=2-4', 'bytes=-3'):
+                                if st != 206: what = f'HEAD: modified + range, expected 206, got {st}'
+                            elif rng == 'bytes=50-':
+                                if st != 416: what = f'HEAD: modified + unsatisfiable range, expected 416, got {st}'
+                            if what is None and st in (200, 206, 304) and hd.get('last-modified') != email.utils.formatdate(lm, usegmt=True):
+                                what = f'Last-Modified {hd.get("last-modified")!r} for mtime {mt}'
+                            ctx.oracle(ORA_COND, what is None, what, case)
+                            ctx.seen((stack, method, mt, ims, rng, route), True)
+                            continue
                         if err: what = f'raised {err}'
                         elif hd.get('last-modified') != email.utils.formatdate(lm, usegmt=True): what = f'Last-Modified {hd.get("last-modified")!r} for mtime {mt}'
                         elif delta >= 0:
